@@ -200,6 +200,7 @@ ROOTS = [
     (("asyncio.tcp_server", "TCPServer._idle_timeout"), "timer", "idle timer task, asyncio"),
     (("trio.tcp_server", "TCPServer._idle_timeout"), "timer", "idle timer task, trio"),
     (("protocol.ws_stream", "WSStream._send_pings"), "pings", "websocket ping task"),
+    (("protocol.h2", "H2Protocol.stream_send"), "stream_send", "HTTP/2 stream_send (called from the application's send: closure must be absorbed, not raised into the application)"),
     (("asyncio.tcp_server", "TCPServer.protocol_send"), "protocol_send", "transport write path, asyncio (a failure must be absorbed, not raised into the application's send)"),
     (("trio.tcp_server", "TCPServer.protocol_send"), "protocol_send", "transport write path, trio"),
 ]
@@ -276,10 +277,8 @@ def run(ctx: Ctx) -> None:
                 f"{exc} raised at {where} line {origin.line} ({origin.reason}) is not handled on the chain {' -> '.join(item.chain)} and leaves the {desc}",
                 None,
                 detail={"chain": list(item.chain), "exception": exc, "kind": origin.kind, "root": wroot},
+                at=(repo.relpath(origin.func[0]), origin.line),
             )
-            # node for location
-            ctx.findings[-1].file = repo.relpath(origin.func[0])
-            ctx.findings[-1].line = origin.line
     ctx.extra["escape_stats"] = {
         "functions_analysed": len(ea.funcs),
         "primitive_raise_sites": ea.primitive_sites,
